@@ -1,5 +1,6 @@
 import OdxVerif.Props.C02Nested3b
 import OdxVerif.Props.C03Nested3
+import OdxVerif.Proofs.CompBits3URe
 /-! # C03, nested tier, edition 3b (task W29) — decode → re-encode reproduces the PDU for descriptions with a compu DOP as
     MULTIPLEXER switch key / DYNAMIC-LENGTH-FIELD count and the W23 leaves (`Desc3b` / `Described3b`).
     (Separate file; imported nowhere.) -/
@@ -162,5 +163,74 @@ theorem C03_dynlen_compu_count_rounded :
     (encodeMessage none exCnt2Params (.dict [("df", .list [.dict [("b", .atom (.int 10))]])]) none true).toOption
       = some ([0x22, 0x00, 0x0A], 0) := by
   refine ⟨?_, ?_, ?_⟩ <;> decide +kernel
+
+/-! ## UTF-16LE leaves inside field items and multiplexer cases (`Desc2U` / `Described2U`) -/
+
+def Descs2U.endsWithEop (ds : List Desc2U) : Bool := Comps.anyEop (Descs2U.comps ds)
+
+/-- **C03, nested tier, with UTF-16LE leaves at any depth** (`C03_reencode_nested2` over `Desc2U`): `ds` a well-formed request /
+    response with a fully supplied value tree (`Descs2U.full`; a UTF-16LE leaf's value is its list of code points), `pdu` a PDU whose
+    bits are exactly the layout of `ds` (UTF-16LE leaf: the UTF-16LE bytes of the string — the canonical encoding of the code
+    points, `U16.inRange`).  Then strict `decode` returns `V = Descs2U.decoded ds`, and strict `encode` of exactly `V` returns
+    the PDU byte for byte, without an overlap warning. -/
+theorem C03_reencode_nested2U (ds : List Desc2U) (trig : Option Bytes) (hok : Descs2U.ok trig ds) (hfull : Descs2U.full ds)
+    (pdu : Bytes) (hall : AllBytes pdu)
+    (hbits : ∀ e ∈ Descs2U.layout ds, ∀ j, j < e.bl → getBit pdu (absBit e.pos e.k e.hl (j + e.bp)) = e.raw.testBit j)
+    (hdisj : LDisj2 (Descs2U.layout ds))
+    (hcover : ∀ a, a < 8 * pdu.length → ∃ e ∈ Descs2U.layout ds, e.claims a)
+    (hext : Descs2U.extent ds ≤ pdu.length)
+    (hend : Descs2U.endsWithEop ds = true → Descs2U.endCursor ds = pdu.length) :
+    decodeMessage none (Descs2U.params ds) pdu true = .ok (.dict (Descs2U.decoded ds), Descs2U.endCursor ds) ∧
+      encodeMessage none (Descs2U.params ds) (.dict (Descs2U.decoded ds)) trig true = .ok (pdu, 0) := by
+  obtain ⟨hm, hw⟩ := descs2U_reencode_pure trig ds hok.1 pdu hall hbits ((LDisj2_iff _).mp hdisj) hcover hext
+  have henc : encodeMessage none (Descs2U.params ds) (.dict (Descs2U.supplied ds)) trig true = .ok (pdu, 0) := by
+    rw [descs2U_encodeMessage trig ds hok, hm, hw]
+  have hcur := descs2U_cur_eq trig ds hok.1
+  have hdec := C01_roundtrip_nested2U (Descs2U.mcs ds) trig (Descs2U.describedTop trig ds hok.1) hok.2.2.2.2 hok.2.1 hok.2.2.1
+    hok.2.2.2.1 pdu
+    (fun h => by
+      have h1 : Comps.cur (Descs2U.comps ds) 0 0 = Descs2U.endCursor ds := hcur
+      have h2 := hend h
+      exact h1.trans h2) henc
+  have hdec' : decodeMessage none (Descs2U.params ds) pdu true =
+      .ok (.dict (Descs2U.decoded ds), Comps.cur (Descs2U.comps ds) 0 0) := hdec
+  rw [hcur] at hdec'
+  rw [Descs2U.supplied_eq_decoded trig ds hok.1 hfull] at henc
+  exact ⟨hdec', henc⟩
+
+/-- non-vacuity: `exU` of `Props/C01Nested2U.lean` with `sid` supplied:
+    `22 01 48 00 69 00 01 48 00 69 00 02 3D D8 00 DE` ↦ {sid, m: ("c1", {txt: "Hi"}), f: [{k: 1, txt: "Hi"}, {k: 2, txt: "😀"}]} ↦ the PDU -/
+def exReU : List Desc2U :=
+  [.base (.const ⟨"sid", none, none, none, true, 8, .uint32⟩ (.int 0x22) true),
+   .mux "m" none exUMuxLayout [.u16le uTxt [0x48, 0x69] [0x48, 0x00, 0x69, 0x00]],
+   .eopField "f" none none none none (Comps.toParams (MComps.cs (exUItem 0 [] [])))
+     [exDUItem 1 [0x48, 0x69] [0x48, 0x00, 0x69, 0x00], exDUItem 2 [0x1F600] [0x3D, 0xD8, 0x00, 0xDE]]]
+
+theorem exReU_ok : Descs2U.ok none exReU := by
+  obtain ⟨⟨_, h2, h3, _⟩, _, _, _, _⟩ := exDU_ok
+  refine ⟨⟨?_, h2, h3, trivial⟩, ?_, ⟨rfl, rfl, trivial⟩, rfl, by decide⟩
+  · show Desc2.wf (.const ⟨"sid", none, none, none, true, 8, .uint32⟩ (.int 0x22) true)
+    simp only [Desc2.wf]
+    exact ⟨by simp [Obj.ok, Obj.encOk, Obj.sizeOk], by simp [Obj.inRange]⟩
+  · show Comps.namesOk (MComps.cs exU)
+    exact exU_names
+
+theorem exReU_full : Descs2U.full exReU := by
+  simp [exReU, exDUItem, u8bU, Descs2U.full, Desc2U.full, Descss2U.full, Desc2.full]
+
+theorem exReU_layout : Descs2U.layout exReU = Descs2U.layout exDU := by decide +kernel
+
+theorem exReU_disj : LDisj2 (Descs2U.layout exReU) := by
+  obtain ⟨pdu, w, h, _, hiff⟩ := C02_overlap_iff_nested2U exDU none exDU_ok
+  rw [show encodeMessage none (Descs2U.params exDU) (.dict (Descs2U.supplied exDU)) none true = .ok (exUPdu, 0) from exU_enc] at h
+  simp only [Except.ok.injEq, Prod.mk.injEq] at h
+  rw [exReU_layout]
+  exact (hiff (Descs2U.padOk_of_noSizePadding _ (by rw [exDU_layout]; decide))).mp h.2.symm
+
+example : decodeMessage none (Descs2U.params exReU) exUPdu true = .ok (.dict (Descs2U.decoded exReU), 16) ∧
+    encodeMessage none (Descs2U.params exReU) (.dict (Descs2U.decoded exReU)) none true = .ok (exUPdu, 0) :=
+  C03_reencode_nested2U exReU none exReU_ok exReU_full exUPdu (by unfold AllBytes exUPdu; decide)
+    (by rw [exReU_layout, exDU_layout]; decide +kernel) exReU_disj
+    (by rw [exReU_layout, exDU_layout]; decide +kernel) (by decide +kernel) (fun _ => by decide +kernel)
 
 end OdxVerif.Codec
